@@ -37,6 +37,7 @@ def load_known():
 
 def native_replay(rec, paths, profile='dev'):
     nat = implmod.NativeImpl(paths['native_dev' if profile == 'dev' else 'native_rel'])
+    nat.tz = rec['params'].get('tz') if isinstance(rec.get('params'), dict) else None   # the job's process time zone, if it asks for one
     import cli
     nat.cli = cli.NativeCli(paths['cli_bin'])
     try:
